@@ -524,6 +524,11 @@ def r7_convert(report, repo):
                        ('numbers.Real', 'real')):
         if key in t and tag not in order:
           order.append(tag)
+      # both sequence arms behind one test (the arms are told apart inside)
+      if 'isinstance(obj, (list, tuple))' in t:
+        for tag in ('list', 'tuple'):
+          if tag not in order:
+            order.append(tag)
   want = ['as_base_types', '_asdict', 'records', 'attrs', 'enum', 'passthrough',
           'dict', 'list', 'tuple', 'integral', 'real']
   report.check(order == want, rule, f.qualname, 'dispatch-order', f.node,
